@@ -38,7 +38,8 @@ def worker(ck: Check, job):
     ex.shape_ignore = {'Occurence'}
     res_b = run_scanner(ck, ex, L, st.slots, thr)
     ck.absorb(ex)
-    batch = H.merged_result(res_b)
+    cov = []
+    batch = merged(cov, res_b)
     if not isinstance(batch, Seq):
         raise Inconclusive('batch result is not a sequence')
     nb = B64(batch.len)
@@ -116,7 +117,7 @@ def worker(ck: Check, job):
                 conds.append(z3.Not(z3.And(st.sepf[2 * i], skipped)))
             return z3.And(*conds)
         return None
-    ck.prove_none(name + ':hints', st.assm, bad, on_cex, block)
+    ck.prove_none(name + ':hints', st.assm, guard(cov[:1], bad), on_cex, block)
     ck.cover(name + ':hints:witness', st.assm + [z3.UGE(nb, 1), z3.Or(*st.nanf), z3.Or(*st.sepf[1:])],
              lambda m: {'lang': code, 'tokens': tokens_of(m)})
 
@@ -142,7 +143,7 @@ def worker(ck: Check, job):
     bad2 = [('find_numbers_iter consumed input before the first request', z3.BoolVal(iter_pos(state, ex2) != 0))]
     rl = ex2.explore('harness::drain_lazily', [Ref('root', 'it')], roots={'it': state})
     ck.absorb(ex2)
-    lazy = H.merged_result(rl)
+    lazy = merged(cov, rl)
     from .c11 import seq_occ_equal
     bad2.append(('the lazily yielded sequence differs from the batch result', z3.Not(seq_occ_equal_full(lazy, batch))))
     if thr == 0.0:
@@ -150,7 +151,7 @@ def worker(ck: Check, job):
     else:
         ex0 = make_executor(ck, st.assm)
         ex0.shape_ignore = {'Occurence'}
-        rec = H.merged_result(run_scanner(ck, ex0, L, st.slots, 0.0))
+        rec = merged(cov, run_scanner(ck, ex0, L, st.slots, 0.0))
         ck.absorb(ex0)
     for cond, pos, item in probes:
         if isinstance(item, Choice):
@@ -164,7 +165,7 @@ def worker(ck: Check, job):
         bad2.append(('the iterator had read %d tokens when it returned an occurrence: beyond the second number after it' % pos,
                      z3.And(c, B64(item.disc) == 1, z3.UGT(z3.BitVecVal(pos, 64), bound))))
     bad2 += [('lazy panic: %s %s at %s' % (p.kind, p.msg, p.where), c) for p, c in zip(ex2.panics, conds_of(ex2.panics))]
-    ck.prove_none(name + ':lazy', st.assm, bad2, on_cex, lambda m, c: None)
+    ck.prove_none(name + ':lazy', st.assm, guard(cov, bad2), on_cex, lambda m, c: None)
     ck.cover(name + ':lazy:witness', st.assm + [z3.UGE(nb, 2)], lambda m: {'lang': code, 'tokens': tokens_of(m)})
     ck.bounds['stream_words'] = k
 
